@@ -801,3 +801,8 @@ mod test {
         }
     }
 }
+
+#[cfg(kani)]
+mod verif_kani {
+    include!(concat!(env!("IPA_VERIF_DIR"), "/kani/circular.rs"));
+}
